@@ -6,6 +6,7 @@ import Rpki.Props.C17
 #print axioms Rpki.C17.validity_iff
 #print axioms Rpki.C17.calendar_order_is_instant_order
 #print axioms Rpki.C17.validity_iff_calendar
+#print axioms Rpki.C17.years_from_date_spec
 #print axioms Rpki.C17.trim_inter
 #print axioms Rpki.C17.serial_fromSlice
 #print axioms Rpki.C17.serial_dec_roundtrip
